@@ -96,6 +96,10 @@ func (c *DefaultBallotStuckResolver) NewPoint(ctx context.Context, point base.St
 				if !errors.Is(wctx.Err(), context.DeadlineExceeded) {
 					return
 				}
+
+				if sctx.Err() != nil { // NOTE select may pick the expired wait of a canceled point
+					return
+				}
 			}
 
 			l.Debug().Msg("ballot stuck found")
@@ -181,6 +185,10 @@ func (c *DefaultBallotStuckResolver) start(ctx context.Context, point base.Stage
 			startresolve = true
 			resolveAfterch = nil
 		case <-ticker.C:
+			if err := ctx.Err(); err != nil { // NOTE select may pick the ticker of a canceled point
+				return errors.WithStack(err)
+			}
+
 			ll := l.With().Int("count", count).Logger()
 			count++
 
@@ -213,6 +221,8 @@ func (c *DefaultBallotStuckResolver) start(ctx context.Context, point base.Stage
 				return nil
 			case vp == nil:
 				continue
+			case ctx.Err() != nil: // NOTE canceled while voting; no voteproof for canceled point
+				return errors.WithStack(ctx.Err())
 			default:
 				ll.Debug().Msg("stuck voteproof for next round")
 
@@ -237,6 +247,8 @@ func (c *DefaultBallotStuckResolver) gatherMissingBallots(
 	switch {
 	case err != nil:
 		return false, false, err
+	case ctx.Err() != nil: // NOTE canceled while finding; nothing more for canceled point
+		return false, false, errors.WithStack(ctx.Err())
 	case !ok:
 		return false, false, nil
 	case len(nodes) < 1:
@@ -252,9 +264,15 @@ func (c *DefaultBallotStuckResolver) suffrageVoting(
 ) (_ base.Voteproof, nomore bool, _ error) {
 	var nodes []base.Address
 
+	if err := ctx.Err(); err != nil { // NOTE canceled while requesting
+		return nil, false, errors.WithStack(err)
+	}
+
 	switch i, ok, err := c.findMissingBallotsf(ctx, point, true); {
 	case err != nil:
 		return nil, false, err
+	case ctx.Err() != nil: // NOTE canceled while finding
+		return nil, false, errors.WithStack(ctx.Err())
 	case !ok:
 		return nil, false, nil
 	case len(i) < 1:
